@@ -82,7 +82,7 @@ def cpp_history(ctx, jobs, res, dist):
 
 
 def run(ctx: Ctx):
-    n_models, n_steps = (20, 200) if ctx.tier == "quick" else (200, 2000)
+    n_models, n_steps = (20, 200) if ctx.tier == "quick" else (400, 5000)
     ctx.translate("gen_layout")
     ctx.translate("gen_ekf")
     ctx.prove("Props/C09.v")
